@@ -132,6 +132,20 @@ def ref_log1p(z):
         return np.where(big, np.log(zb), w)
 
 
+def dense_grid(fmt, per_binade):
+    """`per_binade` ordinals, equally spaced in the lattice, in every binade of both signs (plus the half-binade grid)"""
+    base = grid_ordinals(fmt)
+    pos = base[base > 0]
+    pows = pos[::2] if len(pos) > 2 else pos
+    out = [base]
+    a, b = pows[:-1], pows[1:]
+    for j in range(1, per_binade):
+        m = a + ((b - a) * j) // per_binade
+        out.append(m)
+        out.append(-m - 1)
+    return np.unique(np.concatenate(out))
+
+
 class LineProbe:
     def __init__(self, name, oracle, spec, tre, tim, var, fmt):
         self.name, self.f, self.spec, self.tre, self.tim, self.var, self.fmt = name, oracle, spec, tre, tim, var, fmt
